@@ -85,6 +85,7 @@ fn help_brotli_encoder_compress_single(
         result = false;
     }
     *encoded_size = total_out.unwrap();
+    crate::enc::encode::BrotliEncoderDestroyInstance(&mut encoder);
 
     result
 }
